@@ -25,7 +25,9 @@ from ..cli import digest
 
 PROP = 'C05'
 LEVEL = 'exploration'
-RULE = ('program: random chained operations (methods, functional forms of '
+RULE = ('suite: the repository\'s own test suite with receiver and '
+        'file arguments digested around every outermost public operation; '
+        'program: random chained operations (methods, functional forms of '
         'core/_functions.py, pointwise selections) on core and IOAPI files with a '
         'deep snapshot of every input before/after each operation and a '
         'write-sentinel alias test on every result; query: 20 query kinds '
@@ -52,7 +54,7 @@ ASSUMPTIONS = [
     'cyclic collector runs only at explicit gc steps (first pass)',
 ]
 HOOKS = ['op.return', 'input-unchanged.compare', 'alias.write-test',
-         'query.return', 'schedule.read-after-step']
+         'query.return', 'schedule.read-after-step', 'suite.op.return']
 TECHNIQUE = ('runtime monitoring: snapshot-diff invariant at every '
              'operation/query boundary, write-sentinel alias probe, and an '
              'enumerated open/close/GC schedule checked against a '
@@ -107,13 +109,17 @@ def seqs(tier):
 
 
 def ncases(tier):
-    return NPROG[tier] + NQUERY[tier] + len(seqs(tier)) + NRANDSCHED[tier]
+    # + 1: the repository's own suite under the input-unchanged monitor
+    return NPROG[tier] + NQUERY[tier] + len(seqs(tier)) + \
+        NRANDSCHED[tier] + 1
 
 
 EXHAUSTIVE = {}
 
 
 def gen(rng, idx, tier, seed):
+    if idx == ncases(tier) - 1:
+        return {'mode': 'suite'}
     if idx < NPROG[tier]:
         if idx % 4 == 3:
             fs = {'ioapi': gen_ioapi.gen_spec(rng)}
@@ -570,8 +576,35 @@ def run_schedule(spec, res):
            n=0)
 
 
+def run_suite(spec, res):
+    """the repository's own test suite as workload: receiver and file
+    arguments of every outermost public operation are digested before and
+    after the call"""
+    r = harness.run_suite_monitored()
+    if not r or not r.get('counts'):
+        res.note('inconclusive:suite-monitor-observed-nothing')
+        return
+    n = sum(r['counts'].values())
+    res.hook('suite.op.return', n)
+    res.hook('input-unchanged.compare', n)
+    res.notes['suite_monitored_returns'] = n
+    for op, c in r['counts'].items():
+        res.facet('suite-op:' + op, c)
+    res.ev(digest(['suite', sorted(r['counts'].items())]), True, 'suite')
+    for v in r['violations']:
+        if v['prop'] != 'C05':
+            continue
+        res.viol('suite-input-modified:' + v['op'],
+                 'in the repository test %s: %s on a %s: %s' % (
+                     v['test'], v['op'], v['receiver'],
+                     '; '.join(v['problems'][:4])),
+                 op=v['op'], test=v['test'])
+
+
 def run(spec, res):
     ops.OPTIONS['zipped'] = True
+    if spec['mode'] == 'suite':
+        return run_suite(spec, res)
     if spec['mode'] == 'program':
         run_program(spec, res)
     elif spec['mode'] == 'query':
